@@ -98,6 +98,20 @@ def instance(rng):
         if bounded:
             lo = x0 - 0.5 - rng.random(n) * 1.5
             hi = x0 + 0.5 + rng.random(n) * 1.5
+    elif 0.58 <= u < 0.66:
+        # consistent data whose exact solution is one of the coordinate points of the initial set (x0 + rhobeg e_j): the residual
+        # vanishes there while the regularised objective is far from F* - 'objective is sufficiently small' must be judged on
+        # sum(r^2) + h, also for points evaluated after x0 (seeded change C06_10)
+        variant = "zero-residual-at-init-point"
+        x0 = np.round(rng.normal(size=n), 1) + 0.5
+        rb = 0.1 * max(float(np.max(np.abs(x0))), 1.0)
+        xg = x0.copy()
+        xg[int(rng.integers(0, n))] += rb
+        b = A @ xg
+        lam = float(10 ** rng.uniform(-0.5, 0.5))
+        if bounded:
+            lo = x0 - 0.5 - rng.random(n) * 1.5
+            hi = x0 + 0.5 + rng.random(n) * 1.5
     with_args = bool(rng.random() < 0.5)
     if u >= 0.82:
         return near_face_instance(rng, with_args)
